@@ -15,6 +15,8 @@ ANALYSIS-ERROR -- normalisation never guesses):
   E. ``project_namedtuples``  ``p = _P(e1, e2)`` .. ``p.a``     ->  ``p__a = e1; p__b = e2; p = _P(p__a, p__b)`` .. ``p__a``
   H. ``forward_single_cell``  ``box = []`` .. ``box.append(v)`` .. ``box[0]``  ->  .. ``v``  (a local one-element list that nothing else
                            can reach, one append site outside loops, the read later in the append's own block)
+  I. ``read_properties``    ``@property def p(self): return E`` .. ``self.p`` in a method of the class  ->  .. ``E``  (a read-only property
+                           that no other module of the tree mentions: a derived value is read through its return expression)
 """
 import ast
 import copy
@@ -1181,3 +1183,117 @@ def forward_single_cell(tree):
                 own_ids.add(id(new))
                 total += 1
     return total
+
+
+# ------------------------------------------------------------------------------------------------ I. read-only properties
+def read_properties(tree, anchors, foreign):
+    """``@property`` / ``def p(self): return E``  ..  ``self.p`` inside a method of the class (or of a class of the module deriving from it)
+    ->  ``E`` with the getter's ``self`` read as the method's (a derived value is read through its return expression).
+
+    A property is a data descriptor of the class: ``self.p`` runs this getter whenever the class of ``self`` resolves ``p`` to it, i.e.
+    when no subclass re-defines the name.  That is established when the module binds the name once (the getter: no setter / deleter, no
+    class attribute, no other def) and no other module of the tree mentions it (``foreign``).  The getter must be one ``return E``
+    (after an optional docstring) with ``E`` making no scope of its own; the names ``E`` reads besides ``self`` are globals and must not
+    be bound by the function the read sits in.  The read must be ``<self>.p`` with ``<self>`` the never re-bound instance parameter of a
+    plain method / property getter, and the classes involved must be plain classes of this module all the way up to ``object`` (no
+    metaclass, no ``__getattr__`` / ``__getattribute__``, no base we do not see).  Other reads (``other.p``, ``Class.p``) and the definition
+    itself stay as they are.  Names the rules mention (anchors) are left alone.  Returns the number of reads replaced."""
+    if foreign is None:
+        return 0
+    classes = dict((st.name, st) for st in tree.body if isinstance(st, ast.ClassDef))
+    if not classes or _module_bindings(tree).get('property'):
+        return 0
+
+    def derives(name, base, seen=()):
+        if name == base:
+            return True
+        c = classes.get(name)
+        if c is None or name in seen:
+            return False
+        return any(isinstance(b, ast.Name) and derives(b.id, base, seen + (name,)) for b in c.bases)
+
+    def closed(name, seen=()):
+        """the class and all its bases are plain classes of this module (or ``object``): no metaclass, no attribute hook inherited from
+        a class we do not see"""
+        if name == 'object' and name not in classes:
+            return True
+        c = classes.get(name)
+        if c is None or name in seen or c.keywords or c.decorator_list or [x for x in tree.body if isinstance(x, ast.ClassDef) and x.name == name] != [c]:
+            return False
+        if any(isinstance(m, (ast.FunctionDef, ast.AsyncFunctionDef)) and m.name in ('__getattribute__', '__getattr__') for m in c.body):
+            return False
+        return all(isinstance(b, ast.Name) and closed(b.id, seen + (name,)) for b in c.bases)
+    parent = {}
+    for p in ast.walk(tree):
+        for c in ast.iter_child_nodes(p):
+            parent[id(c)] = p
+    done = 0
+    for cname, cls in sorted(classes.items()):
+        if not closed(cname):
+            continue
+        for fn in list(cls.body):
+            if not (isinstance(fn, ast.FunctionDef) and len(fn.decorator_list) == 1 and isinstance(fn.decorator_list[0], ast.Name)
+                    and fn.decorator_list[0].id == 'property'):
+                continue
+            name = fn.name
+            a = fn.args
+            if (name.startswith('__') and name.endswith('__')) or name in anchors or foreign(name):
+                continue
+            if len(a.args) != 1 or a.posonlyargs or a.kwonlyargs or a.vararg or a.kwarg or a.defaults:
+                continue
+            body = list(fn.body)
+            if body and isinstance(body[0], ast.Expr) and isinstance(body[0].value, ast.Constant) and isinstance(body[0].value.value, str):
+                body = body[1:]
+            if len(body) != 1 or not isinstance(body[0], ast.Return) or body[0].value is None or \
+                    _contains([body[0].value], (ast.Lambda, ast.ListComp, ast.SetComp, ast.DictComp, ast.GeneratorExp, ast.NamedExpr, ast.Await,
+                                                ast.Yield, ast.YieldFrom), stop=()):
+                continue
+            expr = body[0].value
+            me0 = a.args[0].arg
+            if any(isinstance(x, ast.Name) and x.id == me0 and not isinstance(x.ctx, ast.Load) for x in ast.walk(expr)) or \
+                    any(isinstance(x, ast.Attribute) and x.attr == name for x in ast.walk(expr)):
+                continue
+            free = set(x.id for x in ast.walk(expr) if isinstance(x, ast.Name)) - {me0}
+            # the name is bound once in the module: this getter
+            if any(x is not fn and ((isinstance(x, (ast.FunctionDef, ast.AsyncFunctionDef, ast.ClassDef)) and x.name == name) or
+                                    (isinstance(x, ast.Name) and x.id == name) or (isinstance(x, ast.arg) and x.arg == name) or
+                                    (isinstance(x, ast.alias) and name in (x.name, x.asname)) or
+                                    (isinstance(x, (ast.Global, ast.Nonlocal)) and name in x.names) or
+                                    (isinstance(x, ast.Attribute) and x.attr == name and not isinstance(x.ctx, ast.Load)))
+                   for x in ast.walk(tree)):
+                continue
+            for n in [x for x in ast.walk(tree) if isinstance(x, ast.Attribute) and x.attr == name]:
+                cur = parent.get(id(n))
+                while cur is not None and not isinstance(cur, _SCOPES):
+                    cur = parent.get(id(cur))
+                holder = parent.get(id(cur)) if cur is not None else None
+                if cur is fn or not (isinstance(n.value, ast.Name) and isinstance(cur, ast.FunctionDef) and
+                                     isinstance(holder, ast.ClassDef) and classes.get(holder.name) is holder and derives(holder.name, cname) and closed(holder.name) and
+                                     all(isinstance(d, ast.Name) and d.id == 'property' for d in cur.decorator_list) and
+                                     cur.args.args and not cur.args.posonlyargs and cur.args.args[0].arg == n.value.id):
+                    continue
+                me = n.value.id
+                bound = _stored_names(cur.body) | set(x.arg for y in ast.walk(cur) if isinstance(y, ast.arguments)
+                                                      for x in y.posonlyargs + y.args + y.kwonlyargs + [z for z in (y.vararg, y.kwarg) if z]) | \
+                    set(y.name for y in ast.walk(cur) if isinstance(y, (ast.FunctionDef, ast.AsyncFunctionDef, ast.ClassDef)) and y is not cur) | \
+                    set(nm for y in ast.walk(cur) if isinstance(y, (ast.Global, ast.Nonlocal)) for nm in y.names)
+                if me in _stored_names(cur.body) or (free & bound) or \
+                        any(isinstance(x, ast.arg) and x.arg == me and x is not cur.args.args[0] for x in ast.walk(cur)):
+                    continue
+                new = _Subst({me0: ast.Name(id=me, ctx=ast.Load())}, {}).visit(copy.deepcopy(expr)) if me != me0 else copy.deepcopy(expr)
+                for x in ast.walk(new):
+                    ast.copy_location(x, n)
+                p = parent[id(n)]
+                for field, val in ast.iter_fields(p):
+                    if val is n:
+                        setattr(p, field, new)
+                    elif isinstance(val, list):
+                        for i, it in enumerate(val):
+                            if it is n:
+                                val[i] = new
+                for x in ast.walk(new):
+                    for c in ast.iter_child_nodes(x):
+                        parent[id(c)] = x
+                parent[id(new)] = p
+                done += 1
+    return done
